@@ -102,7 +102,9 @@ def generate(tier, rng):
 DEGENERATE = [b'', b'\n', b'\n\n', b' ', b'-- only a comment', b'-- c\n', b'--[[ block\ncomment ]]', b'// c', b'x=1', b'x=1 -- c', b'return',
               b'f()', b'if (a) b=1', b'do end', b'x=1;', b'x = "s"', b'::l::', b'goto l', b'while x do break end', b'x=1\n\n\n', b'x=1\n  ',
               b'\n\nx=1', b'  x=1', b'x=[[a\nb]]', b'x=1 --[[c]]', b'local function f() end', b'x={}', b'x=f{}', b'x=f""']
-CORPUS_VALID = [b'(f or g)(x)\n', b'x=(a+b).c\n', b'(-x):f()\n', b'x=(a)(b)\n', b'(a).b=1\n', b'("x"):len()\n', b'(f)(x)\n', b'x=((a))\n', b'x=(a)\n',
+CORPUS_VALID = [b'if (a) b=1 else\nc=2\n', b'if (a) b=1 else ;\nc=2\n', b'if (a) b=1 else -- x\nc=2\n', b'if (a) b=1 else',
+                b'if (a) b=1 else  ;;  \n', b'do if (a) b=1 else\nend\n', b'if (a) if (b) c=1 else\nd=2\n',   # else without statements (fixed)
+                b'(f or g)(x)\n', b'x=(a+b).c\n', b'(-x):f()\n', b'x=(a)(b)\n', b'(a).b=1\n', b'("x"):len()\n', b'(f)(x)\n', b'x=((a))\n', b'x=(a)\n',
                 b'if (a) do x=1 end\n', b'if (a) if (b) c=1\nd=2\n', b'if (a) b=1 else c=2\nd=3\n', b'if (a) b=1 -- c\nd=3\n', b'do if (a) b=1\nc=2 end\n',
                 b'x=1;;y=2;\n', b';x=1\n', b'x = {1,2;3,}\n', b'x = {a=1,\n  [2]=3;\n  f(),\n}\n', b'for i=1,2 do end for a,b in c do end\n',
                 b'function a.b:c(...) return ... end\n', b'while true do break x=1 end\n', b'x\t=\t1\r\ny = 2\r\n', b'x=1\n\n\n\ny=2\n', b'do\n\nx=1\nend\n',
